@@ -1,5 +1,8 @@
 """C07 -- volume content does not depend on the container format."""
+import os
 import framework as fw
+
+NEEDS_BINS = True
 from geomtab import KINDS, IBM_KINDS, CPM_KINDS, shift_of
 
 def dpb_info(kinds):
@@ -87,6 +90,53 @@ def gen_cross(ctx, dpbs):
 def canon_cells(toks, text):
     return text
 
+MKDSK = [  # (os, kind, volume, unit, [(type, wrap, ext), ...]) : the same format of the same disk kind in every image type that holds it
+    ('prodos', '5.25in', 'VOL', 'po', [('po', None, 'po'), ('do', None, 'do'), ('woz2', None, 'woz'), ('woz1', None, 'woz'), ('nib', None, 'nib'), ('2mg', 'po', '2mg'), ('2mg', 'do', '2mg')]),
+    ('prodos', '3.5in-ss', 'VOL', 'po', [('po', None, 'po'), ('2mg', 'po', '2mg'), ('woz2', None, 'woz')]),
+    ('prodos', '3.5in-ds', 'VOL', 'po', [('po', None, 'po'), ('2mg', 'po', '2mg'), ('woz2', None, 'woz')]),
+    ('pascal', '5.25in', 'VOL', 'po', [('po', None, 'po'), ('do', None, 'do'), ('woz2', None, 'woz'), ('nib', None, 'nib')]),
+    ('dos33', '5.25in', '254', 'sec', [('do', None, 'do'), ('woz2', None, 'woz'), ('woz1', None, 'woz'), ('nib', None, 'nib'), ('2mg', 'do', '2mg')]),
+    ('dos32', '5.25in', '254', 'sec', [('d13', None, 'd13'), ('woz2', None, 'woz'), ('woz1', None, 'woz'), ('nib', None, 'nib')]),
+    ('cpm2', '5.25in', None, 'sec', [('do', None, 'do'), ('woz2', None, 'woz'), ('nib', None, 'nib')]),
+    ('cpm2', '8in', None, 'sec', [('imd', None, 'imd'), ('td0', None, 'td0')]),
+    ('cpm2', '5.25in-kayii', None, 'sec', [('imd', None, 'imd'), ('td0', None, 'td0')]),
+    ('fat', '5.25in-ibm-dsdd9', None, 'sec', [('img', None, 'img'), ('imd', None, 'imd'), ('td0', None, 'td0')]),
+    ('fat', '3.5in-ibm-720', None, 'sec', [('img', None, 'img'), ('imd', None, 'imd'), ('td0', None, 'td0')]),
+]
+
+
+def mkdsk_scenarios(ctx):
+    """the volume that mkdsk formats is the same in every image type (fixed clock, so the time stamps agree as well)"""
+    import tempfile, shutil, cliutil
+    d = tempfile.mkdtemp(dir=fw.BUILD)
+    env = {'LD_PRELOAD': os.path.join(fw.BUILD, 'fixclock.so')} if os.path.exists(os.path.join(fw.BUILD, 'fixclock.so')) else None
+    lines = []
+    try:
+        k = 0
+        for osn, kind, vol, unit, types in MKDSK:
+            made = []
+            for j, (ty, wrap, ext) in enumerate(types):
+                p = os.path.join(d, f"{osn}-{kind}-{j}.{ext}")
+                args = ['mkdsk', '-o', osn, '-t', ty, '-k', kind, '-d', p] + (['-v', vol] if vol else []) + (['-w', wrap] if wrap else [])
+                rc, _, err = cliutil.run(args, env=env)
+                if rc == 0:
+                    made.append((ty, wrap, p))
+            for ty, wrap, p in made[1:]:
+                glabel = '5.25in-13' if osn == 'dos32' else kind
+                lines.append((f"imgcmp x{k} {unit} {glabel} {made[0][2]} {p}", f"{osn} {kind}: {made[0][0]} vs {ty}{'/' + wrap if wrap else ''}"))
+                k += 1
+        out = fw.run_lines(fw.HARNESS_BIN, [l[0] for l in lines])
+        for ln, what in lines:
+            o = out.get(ln.split()[1])
+            ctx.evaluations += 1
+            if o is None or not o.startswith('ok'):
+                ctx.failures.append({'cls': 'mkdsk-cross:' + what.split(':')[0].replace(' ', ':'), 'case': 'a2kit mkdsk ' + what, 'detail': (o or 'NO-OUTPUT')[:400]})
+            else:
+                ctx.nontrivial.add('mkdsk ' + what)
+    finally:
+        shutil.rmtree(d, ignore_errors=True)
+
+
 def run(ctx, model_ok=True):
     dpbs = dpb_info(CPM_KINDS)
     cells = gen_cells(ctx, dpbs)
@@ -127,6 +177,7 @@ def run(ctx, model_ok=True):
         else:
             nok += 1
             ctx.nontrivial.add(ln)
+    mkdsk_scenarios(ctx)
     ctx.samples += [cells[0] + ' -> ' + str(impl.get(cells[0].split()[1]))[:100], cross[0] + ' -> ' + str(out.get(cross[0].split()[1]))]
     ctx.distribution = {'rule': 'distinct case lines; non-trivial = the block write was accepted and every record located / every container compared',
                         'cells_cases': len(cells), 'cross_cases': len(cross), 'cross_ok': nok}
